@@ -336,18 +336,41 @@ pub fn agg_long(ev: Ev) -> Vec<String> {
         let mut organ: Vec<i64> = sorted.iter().step_by(2).cloned().collect();
         organ.extend(sorted.iter().skip(1).step_by(2).rev().cloned());
         orders.push(organ);
+        // whole operands, operands with a fraction, and both kinds alternating (Integer and Float variants meet
+        // in eval_number's comparators); the special operand as the placeholder or written out as 0/0
+        let kinds: &[u8] = if ev.has_point() { &[0, 1, 2] } else { &[0] };
+        let specials: &[&str] = if ev == Ev::F64 || ev == Ev::Num { &["@", "(0/0)"] } else { &["@"] };
         for o in &orders {
             for at_pos in [usize::MAX, 0, n / 2, n - 1] {
-                let args = o
-                    .iter()
-                    .enumerate()
-                    .map(|(i, v)| if i == at_pos { "@".to_string() } else if *v < 0 { format!("(-{})", -v) } else { v.to_string() })
-                    .collect::<Vec<_>>()
-                    .join(",");
-                for name in &names {
-                    let s = format!("{}({})", name, args);
-                    if s.chars().count() <= 256 {
-                        out.push(s);
+                for &kind in kinds {
+                    for special in specials {
+                        if at_pos == usize::MAX && *special != "@" {
+                            continue;
+                        }
+                        let args = o
+                            .iter()
+                            .enumerate()
+                            .map(|(i, v)| {
+                                if i == at_pos {
+                                    special.to_string()
+                                } else {
+                                    let frac = kind == 1 || (kind == 2 && i % 2 == 1);
+                                    let t = if frac { format!("{}.5", v.abs()) } else { v.abs().to_string() };
+                                    if *v < 0 {
+                                        format!("(-{})", t)
+                                    } else {
+                                        t
+                                    }
+                                }
+                            })
+                            .collect::<Vec<_>>()
+                            .join(",");
+                        for name in &names {
+                            let s = format!("{}({})", name, args);
+                            if s.chars().count() <= 256 {
+                                out.push(s);
+                            }
+                        }
                     }
                 }
             }
